@@ -17,6 +17,7 @@ var yieldSites = []string{
 	"wf.armed", "wf.written", "rf.header", "rf.payload",
 	"hc.closing.1", "hc.closing.2", "mr.read.ret", "closeread.start", "closeread.closed", "ping.registered",
 	"closeMu.before",
+	"wf.header", "wf.payload", "ping.listed", "closeread.registered", "close.handshaken",
 }
 
 type yieldState struct {
